@@ -1354,6 +1354,38 @@ def m_bool_then(eng, st, args, info):
     return outs
 
 
+def m_iter_any(eng, st, args, info):
+    """Iterator::any(&mut it, f) under the generic-iteration abstraction that explicit loops get (only while loops are being abstracted): the scan
+    ends with next() == None (result false) or meets an item on which f holds (result true); an item on which f does not hold is one generic
+    iteration and ends the path as a loopback leaf - exactly the three kinds of path of `for x in it { if f(x) { return true } } false`."""
+    if eng.loops != "havoc" or len(args) != 2 or args[0][0] != "ref":
+        return None
+    it, f = args
+    sig = info.get("fn_args") if isinstance(info.get("fn_args"), str) else info.get("key", "")
+    m = re.match(r"<(.+) as core::iter::traits::iterator::Iterator>::any", sig or "")
+    if not m or f[0] not in ("closure", "fn"):
+        return None
+    nxt = f"<{m.group(1)} as core::iter::traits::iterator::Iterator>::next"
+    cur = eng.freeze(st, eng.read_loc(st, it[1]))
+    eng.write_loc(st, it[1], ("mutated", sig, (cur,), 0))       # the iterator is consumed
+    out = []
+    for s, v, payload in split_option(eng, st, ("app", nxt, (("refv", cur),))):
+        if v == "None":
+            out.append((s, FALSE))
+            continue
+        for s2, r in eng.call_value(s, f, [payload], info["depth"]):
+            if r[0] in ("panic", "loopback"):
+                out.append((s2, r))
+            elif is_const(r):
+                out.append((s2, TRUE if r[1] else ("loopback", "Iterator::any", info["depth"], sig)))
+            else:
+                for val in (1, 0):
+                    s3 = s2.fork()
+                    s3.cond.append((eng.freeze(s3, r), val))
+                    out.append((s3, TRUE if val else ("loopback", "Iterator::any", info["depth"], sig)))
+    return out
+
+
 def m_option_is(which):
     def m(eng, st, args, info):
         o = eng.deref_value(st, args[0])
@@ -1699,6 +1731,7 @@ DEFAULT_MODELS = {
     "core::bool::<impl bool>::then": m_bool_then,
     "core::cell::Cell::replace": m_cell_replace,
     "core::cmp::Ordering::then": m_then,
+    "core::iter::traits::iterator::Iterator::any": m_iter_any,
     "core::intrinsics::discriminant_value": m_discriminant_value,
     "core::num::count_ones": m_intrinsic1("count_ones", lambda a: I(bin(a[1] & ((1 << MASKS[a[2]]) - 1)).count("1"), "u32")),
     "core::num::swap_bytes": m_intrinsic1("swap_bytes", lambda a: I(int.from_bytes((a[1] & ((1 << MASKS[a[2]]) - 1)).to_bytes(MASKS[a[2]] // 8, "little"), "big"), a[2])),
